@@ -206,6 +206,27 @@ for _x in M:
         _x["extra"] = ("chartparse/instrument.py", "def complex_sustain_from_parsed_datas(", "_SCRATCH: list = [None] * 5\n\n\ndef complex_sustain_from_parsed_datas(")
 
 
+# ---- more neutral refactors (behaviour-preserving within every property's domain): no check may alarm
+ALLP = ["C01", "C02", "C03", "C04", "C05", "C06", "C07", "C08", "C09", "C10", "C11", "C12", "C13", "C14", "C15", "C16", "C17", "C18", "C19", "C20"]
+m("neutral-kinds-reordered", "chartparse/instrument.py",
+  "            (NoteEvent.ParsedData, StarPowerEvent.ParsedData, TrackEvent.ParsedData), lines",
+  "            (StarPowerEvent.ParsedData, TrackEvent.ParsedData, NoteEvent.ParsedData), lines", [], ["C02", "C03", "C05", "C07", "C14", "C06", "C18"])
+m("neutral-ascii-blank-padding", "chartparse/instrument.py",
+  r'_regex: typ.Final[str] = r"^\s*?(\d+?) = N ([0-7]) (\d+?)\s*?$"', r'_regex: typ.Final[str] = r"^[ \t]*(\d+) = N ([0-7]) (\d+)[ \t]*$"', [], ["C07", "C14", "C02", "C18"])
+m("neutral-no-lru-cache", "chartparse/tick.py", "@functools.lru_cache\ndef note_duration_to_ticks", "def note_duration_to_ticks", [], ["C04", "C17"])
+m("neutral-unknown-section-via-warnings", "chartparse/chart.py",
+  "                logger.warning(cls._unhandled_data_section_log_msg_tmpl.format(header_tag))",
+  "                import warnings\n                warnings.warn(cls._unhandled_data_section_log_msg_tmpl.format(header_tag))", [], ["C06", "C13", "C18"])
+m("neutral-exact-fraction-time", "chartparse/tick.py",
+  "    ticks_per_minute = bpm * resolution\n    ticks_per_second = ticks_per_minute / 60\n    seconds_per_tick = 1 / ticks_per_second\n    return Seconds(ticks * seconds_per_tick)",
+  "    from fractions import Fraction\n    return Seconds(float(Fraction(ticks * 60) / (Fraction(bpm) * resolution)))", [], ["C01", "C12", "C03", "C11", "C16"])
+m("neutral-sorted-events", "chartparse/track.py",
+  "        events: list[BPMNeedingEventT] = []\n        for data in datas:",
+  "        events: list[BPMNeedingEventT] = []\n        for data in sorted(datas, key=lambda d: d.tick):", [], ["C11", "C09", "C05", "C14", "C13", "C18"])
+m("neutral-getitem-copy", "chartparse/chart.py",
+  "        return self.instrument_tracks[instrument]\n", "        return dict(self.instrument_tracks[instrument])\n", [], ["C19", "C13"])
+
+
 def run(cmd, env=None, cwd=None, timeout=3600):
     return subprocess.run(cmd, env=env, cwd=cwd, capture_output=True, text=True, timeout=timeout)
 
